@@ -29,7 +29,7 @@ FORM = dict(addr=0x01, block2=0x03, block4=0x04, data2=0x05, data4=0x06, data8=0
             block1=0x0a, data1=0x0b, flag=0x0c, sdata=0x0d, strp=0x0e, udata=0x0f, ref_addr=0x10, ref1=0x11, ref2=0x12,
             ref4=0x13, ref8=0x14, ref_udata=0x15, indirect=0x16, sec_offset=0x17, exprloc=0x18, flag_present=0x19,
             strx=0x1a, addrx=0x1b, ref_sup4=0x1c, strp_sup=0x1d, data16=0x1e, line_strp=0x1f, ref_sig8=0x20,
-            implicit_const=0x21, loclistx=0x22, rnglistx=0x23)
+            implicit_const=0x21, loclistx=0x22, rnglistx=0x23, GNU_ref_alt=0x1f20)
 ATE = dict(address=1, boolean=2, complex_float=3, float=4, signed=5, signed_char=6, unsigned=7, unsigned_char=8,
            imaginary_float=9, packed_decimal=0xa, numeric_string=0xb, edited=0xc, signed_fixed=0xd, unsigned_fixed=0xe,
            decimal_float=0xf, UTF=0x10, UCS=0x11, ASCII=0x12)
@@ -149,9 +149,13 @@ class AbbrevTable:
 
 
 class Unit:
-    def __init__(self, root, version=4, abbrevs=None, address_size=8):
+    def __init__(self, root, version=4, abbrevs=None, address_size=8, types_section=False):
         assert root.tag in (TAG["compile_unit"], TAG["partial_unit"], TAG["type_unit"], TAG["skeleton_unit"])
-        assert version >= 5 or root.tag in (TAG["compile_unit"], TAG["partial_unit"])       # (.debug_types is not written)
+        # a DWARF 4 type unit lives in .debug_types (a Forest of its own: Forest.types), a DWARF 5 one in .debug_info
+        assert types_section == (version == 4 and root.tag == TAG["type_unit"])
+        assert version >= 5 or root.tag in (TAG["compile_unit"], TAG["partial_unit"]) or types_section
+        self.types_section = types_section
+        self.signature = None   # type units: set by the layout
         self.root = root
         self.version = version
         self.abbrevs = abbrevs or AbbrevTable()
@@ -170,6 +174,8 @@ class Unit:
                 TAG["skeleton_unit"]: UT_skeleton}[self.root.tag]
 
     def header_size(self):
+        if self.types_section:
+            return 23
         if self.version < 5:
             return 11
         return 12 + {UT_type: 12, UT_skeleton: 8}.get(self.unit_type, 0)
@@ -190,6 +196,16 @@ class Forest:
         self.table_shuffle = None
         # .debug_line: line_table()s of the units that have files (Unit.files; their roots carry DW_AT_stmt_list)
         self.line_section = bytearray()
+        # dwz-style supplementary file: a Forest of its own (own offsets, own sections), written as a second ELF
+        # file ALT_NAME next to the main one; DW_FORM_GNU_ref_alt / DW_FORM_ref_sup4 attributes of this forest
+        # hold DIEs of it.  The two files are tied by .gnu_debugaltlink / .note.gnu.build-id.
+        self.alt = None
+        self.alt_name = b"supplementary.dwz"
+        self.build_id = bytes.fromhex("c06c06a170071122") + b"\x5a" * 12
+        # DWARF 4 type units: a Forest whose units go to .debug_types of the same file (offsets of that section
+        # start at 0 again); DW_FORM_ref_sig8 attributes hold the type DIE (first child of the root) of one
+        self.types = None
+        self.abbrev_base = 0    # where this forest's abbreviation tables start in the file's .debug_abbrev
 
     def all_dies(self):
         out = []
@@ -250,6 +266,12 @@ class Forest:
             return pre + struct.pack("<I", len(v)) + v
         if f in (F["block"], F["exprloc"]):
             return pre + uleb(len(v)) + v
+        if f in (F["GNU_ref_alt"], F["ref_sup4"]):
+            assert not final or v.offset is not None, "the supplementary forest is laid out first"
+            return pre + struct.pack("<I", v.offset or 0)
+        if f == F["ref_sig8"]:
+            assert not final or (v.unit.signature is not None and v is v.unit.root.children[0])
+            return pre + struct.pack("<Q", (v.unit.signature or 0) if v.unit is not None else 0)
         if f in (F["ref1"], F["ref2"], F["ref4"], F["ref8"], F["ref_addr"], F["ref_udata"]):
             target = v.offset if (isinstance(v, Die) and v.offset is not None) else 0
             if f == F["ref_addr"]:
@@ -300,7 +322,7 @@ class Forest:
             _random.Random(self.table_shuffle).shuffle(tables)
         ab = bytearray()
         for t in tables:
-            t.offset = len(ab)
+            t.offset = self.abbrev_base + len(ab)
             ab += t.encode()
         # iterate to a fixpoint (ref_udata sizes depend on offsets)
         for _ in range(8):
@@ -318,14 +340,22 @@ class Forest:
                 break
         info = bytearray()
         for u in self.units:
+            if u.types_section:
+                u.signature = 0x7700000000000000 + self.units.index(u)
+        for u in self.units:
             body = bytearray()
             self._emit_die(u, u.root, body)
-            if u.version >= 5:
+            if u.types_section:
+                u.signature = 0x7700000000000000 + self.units.index(u)
+                kid = u.root.children[0].offset - u.offset
+                hdr = struct.pack("<HIB", u.version, u.abbrevs.offset, u.address_size) + struct.pack("<QI", u.signature, kid)
+            elif u.version >= 5:
                 hdr = struct.pack("<HBBI", u.version, u.unit_type, u.address_size, u.abbrevs.offset)
                 if u.unit_type == UT_type:
                     # type signature, and the offset (within the unit) of the DIE that is the type: the first child
                     kid = u.root.children[0].offset - u.offset if u.root.children else 0
-                    hdr += struct.pack("<QI", 0x1122334455660000 + (u.offset & 0xffff), kid)
+                    u.signature = 0x1122334455660000 + (u.offset & 0xffff)
+                    hdr += struct.pack("<QI", u.signature, kid)
                 elif u.unit_type == UT_skeleton:
                     hdr += struct.pack("<Q", 0x0badc0de00000000 + (u.offset & 0xffff))
             else:
@@ -361,7 +391,7 @@ class Forest:
 
 # ---------------------------------------------------------------- ELF writer
 
-SHT_NULL, SHT_PROGBITS, SHT_SYMTAB, SHT_STRTAB = 0, 1, 2, 3
+SHT_NULL, SHT_PROGBITS, SHT_SYMTAB, SHT_STRTAB, SHT_NOTE = 0, 1, 2, 3, 7
 
 
 class Sym:
@@ -375,8 +405,9 @@ def write_elf(sections, symbols=None, machine=62, bits=64, big=False, etype=1, o
     Returns file bytes.  ET_REL, no program headers, no relocations."""
     E = ">" if big else "<"
     secs = [(b"", b"", SHT_NULL, 0, 0, 0)]
-    for name, data in sections:
-        secs.append((name, data, SHT_PROGBITS, 0, 0, 0))
+    for sec in sections:
+        name, data = sec[0], sec[1]
+        secs.append((name, data, sec[2] if len(sec) > 2 else SHT_PROGBITS, 0, 0, 0))
     if symbols is not None:
         strtab = bytearray(b"\0")
         symdata = bytearray()
@@ -457,9 +488,33 @@ def line_table(files):
     return struct.pack("<I", len(body)) + body
 
 
+def build_alt_file(forest):
+    """The supplementary file of FOREST (forest.alt), to be stored as forest.alt_name in the directory of the
+    main file."""
+    alt = forest.alt
+    info, ab = alt.layout()
+    note = struct.pack("<III", 4, len(forest.build_id), 3) + b"GNU\0" + forest.build_id
+    return write_elf([(b".debug_info", info), (b".debug_abbrev", ab), (b".debug_str", bytes(alt.strtab)),
+                      (b".note.gnu.build-id", note, SHT_NOTE)], [Sym()])
+
+
 def build_file(forest, extra_sections=None, symbols=None):
+    if forest.alt is not None:
+        forest.alt.layout()         # its offsets are what DW_FORM_GNU_ref_alt attributes store
+    if forest.types is not None:
+        forest.types.layout()       # signatures
     info, ab = forest.layout()
+    if forest.types is not None:
+        t = forest.types
+        t.strtab, t.stroff = forest.strtab, forest.stroff
+        t.abbrev_base = len(ab)
+        tinfo, tab = t.layout()
+        ab += tab
     secs = [(b".debug_info", info), (b".debug_abbrev", ab), (b".debug_str", bytes(forest.strtab))]
+    if forest.types is not None:
+        secs.append((b".debug_types", tinfo))
+    if forest.alt is not None:
+        secs.append((b".gnu_debugaltlink", forest.alt_name + b"\0" + forest.build_id))
     if len(forest.line_strtab) > 1:
         secs.append((b".debug_line_str", bytes(forest.line_strtab)))
     if forest.line_section:
